@@ -89,7 +89,9 @@ func drainLogins(ch chan common.RemoteUserLogin) []common.RemoteUserLogin {
 func scnC07Sshd(rc *RunCtx) {
 	t := rc.Spec
 	form := sshdForms[rc.Sub%len(sshdForms)]
+	hostileNames = true
 	m := GenSshdMsg(t, form, 1+t.Choose(9, "uniq"))
+	hostileNames = false
 	if t.Choose(10, "pid.odd") == 9 {
 		// what rsyslog puts into %PROCID% is not always a number
 		m.PID = []string{"-", "sshd", "99999999999999999999", "0017", "+5", ""}[t.Choose(6, "pid.odd.token")]
